@@ -604,7 +604,7 @@ package scipipe
 //@   deterministic by-contract pure library function
 //@ extern (*regexp.Regexp).FindStringSubmatch(re, s) (res)
 //@   deterministic by-contract pure library function
-//@   ensures groups: forall i int :: 0 <= i && i < len(res) ==> res[i] == reGroup(regexLit(re), s, i)
+//@   ensures groups: forall i int :: res[i] == reGroup(regexLit(re), s, i)
 
 // The documented modifiers (docs/writing_workflows.md): basename, dirname, %SUFFIX, s/SEARCH/REPLACE/
 //@ define isSubstMod(m string) bool = fullMatch(m, "s/[^/%\n]+/[^/%\n]*/")
